@@ -84,7 +84,7 @@ def run(pid):
         metas, lines = [], []
         for regs, qs in G.cases(seed, t):
             metas.append((regs, qs)); lines.append(G.line(regs, qs))
-        for fl in fuzz_cases(o, ctx, "route", t, seed):
+        for fl in fuzz_cases(o, ctx, "route", tier, seed):
             try:
                 rg, qq = fl.split(" ", 1)[1].split("|")
                 regs_ = [(x.split(":")[0], unhex(x.split(":")[1])) for x in rg.strip().split(";") if x.strip() and x.strip() != "-"]
